@@ -14,7 +14,7 @@ open Panacea
 
 /-! ## base58 (btcutil) -/
 
-def b58Alphabet : Bytes := str "123456789ABCDEFGHJKLMNPQRSTUVWXYZabcdefghijkmnopqrstuvwxyz"
+def b58Alphabet : Bytes := [0x31, 0x32, 0x33, 0x34, 0x35, 0x36, 0x37, 0x38, 0x39, 0x41, 0x42, 0x43, 0x44, 0x45, 0x46, 0x47, 0x48, 0x4a, 0x4b, 0x4c, 0x4d, 0x4e, 0x50, 0x51, 0x52, 0x53, 0x54, 0x55, 0x56, 0x57, 0x58, 0x59, 0x5a, 0x61, 0x62, 0x63, 0x64, 0x65, 0x66, 0x67, 0x68, 0x69, 0x6a, 0x6b, 0x6d, 0x6e, 0x6f, 0x70, 0x71, 0x72, 0x73, 0x74, 0x75, 0x76, 0x77, 0x78, 0x79, 0x7a]  -- "123456789ABCDEFGHJKLMNPQRSTUVWXYZabcdefghijkmnopqrstuvwxyz"
 
 def b58Index (c : UInt8) : Option Nat := b58Alphabet.idxOf? c
 
@@ -74,7 +74,7 @@ structure DocWithSeq where
   docBytes : Bytes      -- `doc.Marshal()` as observed; carried so that dumps can show it
   deriving Repr, DecidableEq
 
-def didPrefix : Bytes := str "did:panacea:"
+def didPrefix : Bytes := [0x64, 0x69, 0x64, 0x3a, 0x70, 0x61, 0x6e, 0x61, 0x63, 0x65, 0x61, 0x3a]  -- "did:panacea:"
 
 /-- `ValidateDID`: `^did:panacea:[base58]{32,44}$`. -/
 def validateDID (d : Bytes) : Bool :=
@@ -93,7 +93,7 @@ def validateVMID (id did : Bytes) : Bool :=
   (let suffix := id.drop pfx.length
    decide (suffix.length ≤ maxVMIDLen) && decide (suffix ≠ []) && suffix.all (fun c => !isSpace c))
 
-def contextDIDV1 : Bytes := str "https://www.w3.org/ns/did/v1"
+def contextDIDV1 : Bytes := [0x68, 0x74, 0x74, 0x70, 0x73, 0x3a, 0x2f, 0x2f, 0x77, 0x77, 0x77, 0x2e, 0x77, 0x33, 0x2e, 0x6f, 0x72, 0x67, 0x2f, 0x6e, 0x73, 0x2f, 0x64, 0x69, 0x64, 0x2f, 0x76, 0x31]  -- "https://www.w3.org/ns/did/v1"
 
 def nodup : List Bytes → Bool
   | [] => true
@@ -160,8 +160,8 @@ def signBytes (data : Bytes) (seq : Nat) : Bytes :=
 def marshalIdOnly (did : Bytes) : Bytes :=
   if did = [] then [] else 0x12 :: varint did.length ++ did
 
-def es256k2019 : Bytes := str "EcdsaSecp256k1VerificationKey2019"
-def es256k2018 : Bytes := str "Secp256k1VerificationKey2018"
+def es256k2019 : Bytes := [0x45, 0x63, 0x64, 0x73, 0x61, 0x53, 0x65, 0x63, 0x70, 0x32, 0x35, 0x36, 0x6b, 0x31, 0x56, 0x65, 0x72, 0x69, 0x66, 0x69, 0x63, 0x61, 0x74, 0x69, 0x6f, 0x6e, 0x4b, 0x65, 0x79, 0x32, 0x30, 0x31, 0x39]  -- "EcdsaSecp256k1VerificationKey2019"
+def es256k2018 : Bytes := [0x53, 0x65, 0x63, 0x70, 0x32, 0x35, 0x36, 0x6b, 0x31, 0x56, 0x65, 0x72, 0x69, 0x66, 0x69, 0x63, 0x61, 0x74, 0x69, 0x6f, 0x6e, 0x4b, 0x65, 0x79, 0x32, 0x30, 0x31, 0x38]  -- "Secp256k1VerificationKey2018"
 
 /-- Signature verification is a parameter, never an axiom. -/
 structure Crypto where
